@@ -258,6 +258,23 @@ def explore(S, docs=None, want=('C01', 'C04', 'C05')):
                         ctx.witness('protected node')
                     ctx.must_hold(any('@typstyle off' in t for t in texts) or not prot, 'C07:directive-comment-lost', lambda mdl: describe(mdl))
             if 'C12' in want:
+                # a text atom that spans lines carries indentation copied from the source: allowed only for comments, strings, raw text and nodes
+                # protected by a directive
+                exempt = [t_ for k_, t_ in leaf_list(tree) if k_ in ('BlockComment', 'LineComment', 'Str', 'Text', 'RawTrimmed', 'Raw') or k_.startswith('Raw')] + protected_texts(tree)
+                def _blank_norm(x_):
+                    return ''.join(' ' if (ch_ != '\n' and py_is_ws(ch_)) else ch_ for ch_ in x_)
+                exempt = [_blank_norm(e_) for e_ in exempt]
+                for mode_, at_ in atoms_modes(d).items():
+                    for a_ in at_:
+                        if a_[0] != 't':
+                            continue
+                        # (the blanks of the source are symbolic within their class; line feeds are concrete)
+                        txt_ = ''.join(' ' if is_sym(c_) else chr(c_) for c_ in a_[1].chars)
+                        if '\n' in txt_.strip('\n'):
+                            txt_ = _blank_norm(txt_)
+                            okx = any(txt_ in e_ or (e_ in txt_ and e_.count('\n') >= txt_.strip('\n').count('\n')) for e_ in exempt if '\n' in e_)
+                            ctx.must_hold(okx, 'C12:indentation-copied-from-the-source-outside-the-exempt-regions', lambda mdl, txt_=txt_: dict(describe(mdl), text=txt_))
+                    break
                 offs = D.indent_nest_offsets(d)
                 ctx.must_hold(b_and(*[i_eq(o, cfg.fields[0], 64) for o in offs]), 'C12:nest-offset-differs-from-indent-unit',
                               lambda mdl: dict(describe(mdl), offsets=[(model_int(mdl, o) if is_sym(o) else o) for o in offs]))
